@@ -617,7 +617,7 @@ func jsHoistByFold(c *Ctx, ufn *ssa.Function) bool {
 		return false
 	}
 	schemaT := derefType(ufn.Params[0].Type())
-	e := &cpEngine{P: P, MaxOut: 100, MaxSteps: 20000, MaxForks: 24, MaxDepth: 6, visited: map[*ssa.Function]bool{}, trackAtoms: true, foldAll: true}
+	e := &cpEngine{P: P, MaxOut: 100, MaxSteps: 20000, MaxForks: 24, MaxDepth: 6, visited: map[*ssa.Function]bool{}, trackAtoms: true, foldAll: true, forkLookups: true}
 	e.globals = cpInitGlobals(P)
 	e.pending = [][]bool{nil}
 	type form struct {
